@@ -54,6 +54,10 @@ theorem alignGuardDrop_adv {s s' : State} {n : Nat} (hn : MinAlignOK n) (h : ali
   · exact Adv.refl _
   · exact adv_setPos hcur hc (align_pos_dir hn hp)
 
+/-- re-aligning the chunk a `BumpAlignGuard` started in (not the current one) changes no statistic -/
+theorem alignChunkAt_adv {s s' : State} {n : Nat} {st : Cur} (h : alignChunkAt cfg s n st = .ok s') : Adv cfg s s' :=
+  Adv.of_eq (congrArg (·.allocated) (stats_alignChunkAt h))
+
 theorem writeRange_adv {s s' : State} {lo hi : Nat} {f : Nat → UInt8} (h : writeRange cfg s lo hi f = .ok s') :
     Adv cfg s s' := adv_onlyData (Mem.writeRange_onlyData h)
 
@@ -224,12 +228,12 @@ theorem adv_withSettings {n : Nat} {ga cl : Bool} (hs : stepCore cfg g (.withSet
 
 theorem adv_alignedExit (hi : Inv cfg g) (hs : stepCore cfg g .alignedExit = .ok (g', out)) : Adv cfg g.s g'.s := by
   adv_op hs
-  · rename_i outer rest hf _ v hv
+  · rename_i outer start rest hf _ v1 hv1 _ v hv
     have hfr := hi.frames
     rw [hf] at hfr
     have ho : MinAlignOK outer := by
       cases hm : g.marks <;> rw [hm] at hfr <;> exact hfr.1
-    exact alignGuardDrop_adv ho hv
+    exact (alignGuardDrop_adv ho hv1).trans (alignChunkAt_adv hv)
   · exact Adv.refl _
 
 theorem adv_write {b seed : Nat} (hs : stepCore cfg g (.write b seed) = .ok (g', out)) : Adv cfg g.s g'.s := by
